@@ -123,6 +123,14 @@ PLAN = {
             {"run": "TestC14_Limit", "checks": 200000, "shards": 2, "timeout": 3000},
         ],
     },
+    "C15": {
+        "quick": [
+            {"run": "TestC15_Matrix", "checks": 3},
+        ],
+        "thorough": [
+            {"run": "TestC15_Matrix", "checks": 208, "shards": 16, "timeout": 3000},
+        ],
+    },
     "C16": {
         "quick": [
             {"run": "TestC16_Log", "checks": 3000},
